@@ -317,7 +317,7 @@ impl<T: Debug + Eq + PartialEq + Clone + Default> TaggedLine<T> {
 //@item src/render/text_renderer.rs :: impl TaggedLine :: fn new
 //@sub /-> TaggedLine<T>/ ==> -> (r: TaggedLine<T>)
     fn new() -> (r: TaggedLine<T>)
-        ensures r.wf(), r.len == 0, r.v@.len() == 0, //@w @C02 #tl_new
+        ensures r.wf(), r.len == 0, r.v@.len() == 0, //@w @C02 @C04 @C12 #tl_new
     {
         TaggedLine {
             v: Vec::new(),
@@ -331,7 +331,7 @@ impl<T: Debug + Eq + PartialEq + Clone + Default> TaggedLine<T> {
     fn from_string(s: String, tag: &T) -> (r: TaggedLine<T>)
         requires tag_ok::<T>(), //@w
         ensures //@w
-            r.wf() && r.len == sw(s@), //@w @C02 #from_string_width
+            r.wf() && r.len == sw(s@), //@w @C02 @C04 @C12 #from_string_width
             flat(r.v@) =~= flat_str(s@, *tag), //@w @C08 @C03 #from_string_content
     {
         let len = UnicodeWidthStr::width(s.as_str());
@@ -368,9 +368,9 @@ impl<T: Debug + Eq + PartialEq + Clone + Default> TaggedLine<T> {
     fn push_str(&mut self, ts: TaggedString<T>)
         requires old(self).len + sw(ts.s@) <= usize::MAX, tag_ok::<T>(), //@w
         ensures //@w
-            cwid(final(self).v@) == cwid(old(self).v@) + sw(ts.s@), //@w @C02 #push_str_cwid
-            old(self).wf() ==> final(self).wf(), //@w @C02 #push_str_wf
-            final(self).len == old(self).len + sw(ts.s@), //@w @C02 #push_str_len
+            cwid(final(self).v@) == cwid(old(self).v@) + sw(ts.s@), //@w @C02 @C04 @C12 #push_str_cwid
+            old(self).wf() ==> final(self).wf(), //@w @C02 @C04 @C12 #push_str_wf
+            final(self).len == old(self).len + sw(ts.s@), //@w @C02 @C04 @C12 #push_str_len
             flat(final(self).v@) =~= flat(old(self).v@) + flat_str(ts.s@, ts.tag), //@w @C03 @C09 @C14 #push_str_flat
             all_some(old(self).v@) && str_some(ts.s@) ==> all_some(final(self).v@), //@w @C01 #push_str_some
             final(self).v@.len() >= old(self).v@.len(), //@w
@@ -408,9 +408,9 @@ impl<T: Debug + Eq + PartialEq + Clone + Default> TaggedLine<T> {
     fn push(&mut self, tle: TaggedLineElement<T>)
         requires old(self).len + ew(tle) <= usize::MAX, tag_ok::<T>(), //@w
         ensures //@w
-            cwid(final(self).v@) == cwid(old(self).v@) + ew(tle), //@w @C02 #push_cwid
-            old(self).wf() ==> final(self).wf(), //@w @C02 #push_wf
-            final(self).len == old(self).len + ew(tle), //@w @C02 @C14 #push_len
+            cwid(final(self).v@) == cwid(old(self).v@) + ew(tle), //@w @C02 @C04 @C12 #push_cwid
+            old(self).wf() ==> final(self).wf(), //@w @C02 @C04 @C12 #push_wf
+            final(self).len == old(self).len + ew(tle), //@w @C02 @C04 @C12 @C14 #push_len
             flat(final(self).v@) =~= flat(old(self).v@) + flat_elt(tle), //@w @C03 @C09 @C14 #push_flat
             all_some(old(self).v@) && elt_some(tle) ==> all_some(final(self).v@), //@w @C01 #push_some
             final(self).v@.len() >= old(self).v@.len(), //@w
@@ -430,9 +430,9 @@ impl<T: Debug + Eq + PartialEq + Clone + Default> TaggedLine<T> {
     fn push_ws(&mut self, len: usize, tag: &T)
         requires old(self).len + len <= usize::MAX, tag_ok::<T>(), //@w
         ensures //@w
-            cwid(final(self).v@) == cwid(old(self).v@) + len, //@w @C02 #push_ws_cwid
-            old(self).wf() ==> final(self).wf(), //@w @C02 #push_ws_wf
-            final(self).len == old(self).len + len, //@w @C02 @C15 #push_ws_len
+            cwid(final(self).v@) == cwid(old(self).v@) + len, //@w @C02 @C04 @C12 #push_ws_cwid
+            old(self).wf() ==> final(self).wf(), //@w @C02 @C04 @C12 #push_ws_wf
+            final(self).len == old(self).len + len, //@w @C02 @C04 @C12 @C15 #push_ws_len
             flat(final(self).v@) =~= flat(old(self).v@) + flat_str(spaces(len as nat), *tag), //@w @C03 @C15 @C09 #push_ws_flat
             all_some(old(self).v@) ==> all_some(final(self).v@), //@w @C01
     {
@@ -454,9 +454,9 @@ impl<T: Debug + Eq + PartialEq + Clone + Default> TaggedLine<T> {
     fn push_char(&mut self, c: char, tag: &T)
         requires old(self).len + 2 <= usize::MAX, tag_ok::<T>(), //@w
         ensures //@w
-            cwid(final(self).v@) == cwid(old(self).v@) + cwn(c), //@w @C02 #push_char_cwid
-            old(self).wf() ==> final(self).wf(), //@w @C02 #push_char_wf
-            final(self).len == old(self).len + cwn(c), //@w @C02 #push_char_len
+            cwid(final(self).v@) == cwid(old(self).v@) + cwn(c), //@w @C02 @C04 @C12 #push_char_cwid
+            old(self).wf() ==> final(self).wf(), //@w @C02 @C04 @C12 #push_char_wf
+            final(self).len == old(self).len + cwn(c), //@w @C02 @C04 @C12 #push_char_len
             flat(final(self).v@) =~= flat(old(self).v@).push(CItem::Ch(c, *tag)), //@w @C03 @C09 @C12 #push_char_flat
             cw(c).is_some() && all_some(old(self).v@) ==> all_some(final(self).v@), //@w @C01 #push_char_some
             final(self).v@.len() > 0, //@w
@@ -534,8 +534,8 @@ impl<T: Debug + Eq + PartialEq + Clone + Default> TaggedLine<T> {
     fn consume(&mut self, tl: &mut TaggedLine<T>)
         requires old(self).wf(), old(self).len + cwid(old(tl).v@) <= usize::MAX, tag_ok::<T>(), //@w
         ensures //@w
-            final(self).wf(), //@w @C02 #consume_wf
-            final(self).len == old(self).len + cwid(old(tl).v@), //@w @C02 #consume_len
+            final(self).wf(), //@w @C02 @C04 @C12 #consume_wf
+            final(self).len == old(self).len + cwid(old(tl).v@), //@w @C02 @C04 @C12 #consume_len
             flat(final(self).v@) =~= flat(old(self).v@) + flat(old(tl).v@), //@w @C03 @C09 @C14 #consume_flat
             all_some(old(self).v@) && all_some(old(tl).v@) ==> all_some(final(self).v@), //@w @C01 #consume_some
             final(tl).v@.len() == 0, //@w @C03 #consume_drains
@@ -583,7 +583,7 @@ impl<T: Debug + Eq + PartialEq + Clone + Default> TaggedLine<T> {
 //@sub /debug_assert_eq!\(self\.len, result\)/ ==> debug_assert!(self.len == result)
     fn width(&self) -> (r: usize)
         requires self.wf(), //@w @C01 #width_debug_assert
-        ensures r == self.len, //@w @C02 #tl_width
+        ensures r == self.len, //@w @C02 @C04 @C12 #tl_width
     {
         let result = tagged_width_sum(&self.v);
         debug_assert!(self.len == result);
@@ -826,7 +826,7 @@ impl<T: Clone + Eq + Debug + Default> WrappedBlock<T> {
 //@end
 //@item src/render/text_renderer.rs :: impl WrappedBlock :: fn flush_word
 //@sub /-> Result<\(\)>/ ==> -> (r: Result<()>)
-//@auto C01 C02
+//@auto C01 C02 C11
     #[verifier::spinoff_prover] //@w
     fn flush_word(&mut self, ws_mode: WhiteSpace) -> (r: Result<()>)
         requires old(self).inv(), tag_ok::<T>(), //@w
@@ -983,7 +983,7 @@ impl<T: Clone + Eq + Debug + Default> WrappedBlock<T> {
 //@sub /for \(idx, c\) in piece\.s\[bpos\.\.\]\.char_indices\(\)/ ==> let tail = str_from(&piece.s, bpos);\n                    let ci = char_indices_vec(&tail);\n                    for k in 0..ci.len()
 //@sub /piece\.s\[bpos\.\.bpos \+ split_idx\]\.into\(\)/ ==> str_range(&piece.s, bpos, bpos + split_idx)
 //@sub /piece\.s\[bpos\.\.\]\.into\(\)/ ==> str_from(&piece.s, bpos)
-//@auto C01 C02
+//@auto C01 C02 C11
     #[verifier::loop_isolation(false)] //@w
     #[verifier::rlimit(150)] //@w
     fn flush_word_hard_wrap(&mut self) -> (r: Result<()>)
@@ -1193,7 +1193,7 @@ impl<T: Clone + Eq + Debug + Default> WrappedBlock<T> {
     }
 //@end
 //@item src/render/text_renderer.rs :: impl WrappedBlock :: fn flush_line
-//@auto C01 C02
+//@auto C01 C02 C11
     fn flush_line(&mut self)
         requires old(self).inv_nw(), tag_ok::<T>(), //@w
         ensures //@w
@@ -1218,7 +1218,7 @@ impl<T: Clone + Eq + Debug + Default> WrappedBlock<T> {
     }
 //@end
 //@item src/render/text_renderer.rs :: impl WrappedBlock :: fn force_flush_line
-//@auto C01 C02
+//@auto C01 C02 C11
     fn force_flush_line(&mut self)
         requires //@w
             old(self).inv_base(), tag_ok::<T>(), //@w
@@ -1236,7 +1236,7 @@ impl<T: Clone + Eq + Debug + Default> WrappedBlock<T> {
             content(final(self).text@, final(self).line.v@) =~= content(old(self).text@, old(self).line.v@), //@w @C03 @C14 #ffl_keeps_content
             final(self).text@.last().len == (if old(self).pad_blocks && old(self).width > old(self).line.len { old(self).width } else { old(self).line.len }), //@w @C15 @C02 #ffl_len_padded
             !old(self).pad_blocks ==> final(self).text@.last() == old(self).line, //@w @C03 @C15 #ffl_line_moved
-            old(self).pad_blocks ==> exists|t: T| flat(final(self).text@.last().v@) =~= flat(old(self).line.v@) + #[trigger] flat_str(spaces(padn(old(self).width, old(self).line.len)), t), //@w @C15 @C03 #ffl_pad_only_spaces
+            old(self).pad_blocks ==> exists|t: T| flat(final(self).text@.last().v@) =~= flat(old(self).line.v@) + #[trigger] flat_str(spaces(padn(old(self).width, old(self).line.len)), t), //@w @C03 @C11 @C15 #ffl_pad_only_spaces
     {
         let mut tmp_line = TaggedLine::new();
         mem::swap(&mut tmp_line, &mut self.line);
@@ -1263,7 +1263,7 @@ impl<T: Clone + Eq + Debug + Default> WrappedBlock<T> {
 //@sub /\) -> Result<\(\)>/ ==> ) -> (r: Result<()>)
 //@sub /for c in text\.chars\(\)/ ==> for c in it: text.chars()
 //@sub 2 /c\.is_whitespace\(\)/ ==> char_is_ws(c)
-//@auto C01 C02 C12
+//@auto C01 C02 C12 C11
     #[verifier::loop_isolation(false)] //@w
     #[verifier::rlimit(800)] //@w
     fn add_text(
